@@ -584,6 +584,14 @@ func relayScenario(s *verifsim.Sim) {
 		s.Failf("c05-healthy-cut", "%s: the client saw end of stream at %v although the upstream only shut down at %v", desc, o.cliEOF, o.srvCloseWriteAt)
 		return
 	}
+	if lEnd.EOFDeliveredAt >= 0 && o.srvEOF > lEnd.EOFDeliveredAt+2*time.Second && (o.srvCloseWriteAt < 0 || lEnd.EOFDeliveredAt < o.srvCloseWriteAt+grace-3*time.Second) {
+		s.Failf("c05-halfclose-not-forwarded@l2r", "%s: the client's end of stream reached dae at %v but the upstream only saw end of stream at %v", desc, lEnd.EOFDeliveredAt, o.srvEOF)
+		return
+	}
+	if up.EOFDeliveredAt >= 0 && o.cliEOF > up.EOFDeliveredAt+2*time.Second && (o.cliCloseWriteAt < 0 || up.EOFDeliveredAt < o.cliCloseWriteAt+grace-3*time.Second) {
+		s.Failf("c05-halfclose-not-forwarded@r2l", "%s: the upstream's end of stream reached dae at %v but the client only saw end of stream at %v", desc, up.EOFDeliveredAt, o.cliEOF)
+		return
+	}
 	if !lEnd.IsClosed() || !up.IsClosed() {
 		s.Failf("c05-conn-leak", "%s: relay finished but a connection was left open (client side closed=%v upstream closed=%v)", desc, lEnd.IsClosed(), up.IsClosed())
 		return
